@@ -27,7 +27,7 @@ func main() {
 		frugal.SetLogger(logrus.StandardLogger())
 	}
 	run := ev.New("C09", ev.ArgTier(), "exploration")
-	run.Rule("one evaluation = one generated RPC call or publish: (method / scope operation, outcome ok|declared exception|undeclared error, correlation id given|generated, timeout in whole ms from 5 s to 24 h or default, 0-12 user request headers, 0-20 handler response headers incl. names shadowing request headers) drawn from PRNG(VERIF_SEED, leg, index); names: ascii, leading underscore (not _cid/_opid/_timeout), non-ASCII, odd punctuation/control bytes, empty, long, binary; values: empty, ascii, UTF-8, binary, tricky, kilobytes, 4-64 KiB. distinct = (leg, method, outcome, cid class, timeout class, header count bucket and name/value classes of both maps) of cases whose handler observation was reached; in 1/5 of the calls the handler adds 32 response headers from 8 goroutines at once (joined before it returns); plus, on all 12 legs, sequences of 2-4 calls on ONE reused FContext (request headers / timeout changed between calls; handler response headers overlapping by name with different values, some only in earlier calls; outcomes ok / declared / application exception); timeouts also 0 / negative (no deadline) on adapter legs and pub/sub; plus (quick, every seed) 240 calls by 8 overlapping callers on one tcp and one pipe adapter connection; plus too-large replies on the 6 NATS / HTTP(response limit) legs (handler sets headers, result over the limit -> RESPONSE_TOO_LARGE reply must carry them); plus two-hop histories on all 12 legs (A's handler sets response headers and makes 1-2 onward calls to a service B on another leg, each on frugal.Clone(inbound); B sets same-named headers with other values and extra ones); plus 6 directed NATS-server scenarios (3 protocols x fault kinds processor-error-after-output / reply larger than a lowered broker max_payload; 1 worker): faulted request, retry on the same FContext, request on a fresh FContext; plus, at every seed, a directed sweep on the 6 stream legs (pipe, tcp x 3 protocols): add() on a fresh connection with the request header block padded to exactly 4030..4100 and 8120..8200 bytes (4096-byte reader buffer boundaries inside the message body)")
+	run.Rule("one evaluation = one generated RPC call or publish: (method / scope operation, outcome ok|declared exception|undeclared error, correlation id given|generated, timeout in whole ms from 5 s to 24 h or default, 0-12 user request headers, 0-20 handler response headers incl. names shadowing request headers) drawn from PRNG(VERIF_SEED, leg, index); names: ascii, leading underscore (not _cid/_opid/_timeout), non-ASCII, odd punctuation/control bytes, empty, long, binary; values: empty, ascii, UTF-8, binary, tricky, kilobytes, 4-64 KiB. distinct = (leg, method, outcome, cid class, timeout class, header count bucket and name/value classes of both maps) of cases whose handler observation was reached; in 1/5 of the calls the handler adds 32 response headers from 8 goroutines at once (joined before it returns); plus, on all 12 legs, sequences of 2-4 calls on ONE reused FContext (request headers / timeout changed between calls; handler response headers overlapping by name with different values, some only in earlier calls; outcomes ok / declared / application exception); timeouts also 0 / negative (no deadline) on adapter legs and pub/sub; plus (quick, every seed) 240 calls by 8 overlapping callers on one tcp and one pipe adapter connection; plus too-large replies on the 6 NATS / HTTP(response limit) legs (handler sets headers, result over the limit -> RESPONSE_TOO_LARGE reply must carry them); plus two-hop histories on all 12 legs (A's handler sets response headers and makes 1-2 onward calls to a service B on another leg, each on frugal.Clone(inbound) or on the inbound context itself - by case index all-clone / all-inbound / drawn per call, so every leg has each kind at every seed; B sets same-named headers with other values and extra ones; the caller must see A's headers set before and after the onward calls, B's where the onward call ran on the inbound context); plus 6 directed NATS-server scenarios (3 protocols x fault kinds processor-error-after-output / reply larger than a lowered broker max_payload; 1 worker): faulted request, retry on the same FContext, request on a fresh FContext; plus, at every seed, a directed sweep on the 6 stream legs (pipe, tcp x 3 protocols): add() on a fresh connection with the request header block padded to exactly 4030..4100 and 8120..8200 bytes (4096-byte reader buffer boundaries inside the message body)")
 	run.Assume("trusted: the reference frame codec verif/wire, the recording handler harness/e2e, the rig's wire taps (frames copied at the transport boundary), embedded nats-server; timeouts below 5 s are excluded because such calls may legitimately expire (C13 covers expiry); STOMP pub/sub is not exercised (no broker helper in the rig yet) - pub/sub is covered over NATS only")
 	run.Set("asserted_shape", "handler request headers = caller's with _opid replaced by an id never seen on any other context of the run; handler Timeout() = caller's; handler response headers at entry = {_cid,_opid of request}; caller response headers after return = headers the handler set + _cid echo = handler's final map minus _opid; reply frame _opid,_cid = request frame's and reply frame headers = handler's final map; request frame headers = caller's map. Subscriber callback: request headers = publisher's (incl. the _topic_<var> header the generated publisher adds) modulo _opid, Timeout() equal, _opid observed fresh (asserted, same ReadRequestHeader path as RPC)")
 	run.Set("stomp_pubsub", "skipped: no STOMP broker helper in the rig")
@@ -135,7 +135,8 @@ func main() {
 			}
 		}
 	}
-	// two-hop histories: caller -> A -> B with onward calls on Clone(inbound)
+	// two-hop histories: caller -> A -> B with onward calls on Clone(inbound) or
+	// on the inbound context itself
 	if !legOnly {
 		nh := 3
 		if run.Thorough() {
@@ -190,6 +191,9 @@ func main() {
 		}
 	}
 	wg.Wait()
+	if !legOnly && run.Violations() == 0 && (run.Count("two_hop_onward_calls_on_inbound_context") == 0 || run.Count("two_hop_caller_observations_after_onward_call_on_inbound_context") == 0) {
+		run.Inconclusive("no two-hop history with an onward call on the handler's inbound context was observed to the end")
+	}
 	m.opMu.Lock()
 	run.Set("op_ids_seen", len(m.opids))
 	if len(m.undelivered) > 0 {
